@@ -88,8 +88,12 @@ type Sim struct {
 func NewSim(w *world.World, x *mc.X, t Transport, server netip.AddrPort) *Sim {
 	s := &Sim{W: w, X: x, T: t, Server: server, Proc: 20 * time.Microsecond, TxTS: true, RxTS: true, TxStamps: map[int]time.Time{}, SendClock: map[int]time.Time{}, SendTrue: map[int]time.Time{}}
 	w.Net.OnSend = func(c *vnet.UDPConn, d *vnet.Datagram) *vnet.TxStamp {
-		ts := w.Clock.Peek()
-		s.SendClock[d.Seq] = ts
+		// the kernel stamps a packet after the sender's last clock reading, never at
+		// the same instant (the interleaved protocol relies on the two being
+		// distinguishable: a basic reply echoes the software time, the next
+		// interleaved request carries the kernel time)
+		s.SendClock[d.Seq] = w.Clock.Peek()
+		ts := w.Clock.Peek().Add(2 * time.Microsecond)
 		s.SendTrue[d.Seq] = time.Now()
 		if !s.TxTS {
 			return &vnet.TxStamp{None: true}
@@ -98,6 +102,14 @@ func NewSim(w *world.World, x *mc.X, t Transport, server netip.AddrPort) *Sim {
 		return &vnet.TxStamp{TS: ts, ID: 0}
 	}
 	return s
+}
+
+// Depart lets virtual time reach the instant at which the kernel stamped (and
+// sent) the datagram: 2 us after the sender's clock reading.
+func (s *Sim) Depart(d *vnet.Datagram) {
+	if wait := time.Until(s.SendTrue[d.Seq].Add(2 * time.Microsecond)); wait > 0 {
+		time.Sleep(wait)
+	}
 }
 
 // NewRequests returns the datagrams written since the last call.
@@ -120,8 +132,9 @@ func (s *Sim) Serve(d *vnet.Datagram, fwd time.Duration) *Reply {
 		return nil
 	}
 	e := &Exch{N: len(s.Exchs), Req: req, Sock: d.Sock, Theta: s.Theta, Fwd: fwd, SendAt: s.SendClock[d.Seq], CTx: s.TxStamps[d.Seq]}
+	s.Depart(d)
 	time.Sleep(fwd)
-	e.Fwd = time.Since(s.SendTrue[d.Seq]) // a duplicate arrives later than the first copy
+	e.Fwd = time.Since(s.SendTrue[d.Seq].Add(2 * time.Microsecond)) // a duplicate arrives later than the first copy
 	e.SRx = s.W.Clock.Peek().Add(s.Theta)
 	// receive timestamps are unique per client
 	for _, o := range s.store {
